@@ -77,10 +77,12 @@ class Ctx:
             {"kind": kind, "payload": payload, "sig": sig, "detail": detail, "weight": weight}
         )
 
-    def absorb(self, res):
+    def absorb(self, res, task=None):
         """Merge a worker result dict: {n, outcomes, fails:[(kind,payload,sig,detail,weight)], ...}."""
         for f in res.get("fails", ()):
             self.fail(*f)
+            if task is not None:
+                self.failures[-1]["task"] = task
         for o in res.get("outcomes", ()):
             self.outcomes.add(o)
         self.states += res.get("states", 0)
@@ -117,6 +119,29 @@ def pmap(fn, items, workers=16, chunksize=1, ordered=False):
                 pool.terminate()
                 raise HarnessError("worker crashed:\n" + r)
             yield r
+
+
+class _Isolated:
+    """Picklable wrapper: run fn(x) in a forked child of the (pristine) pool worker and return (x, result)."""
+
+    def __init__(self, fn):
+        self.fn = fn
+
+    def __call__(self, x):
+        return x, run_forked(self.fn, x)
+
+
+def run_tasks(ctx, fn, tasks, isolate=True):
+    """pmap + absorb. Every task runs in its own forked process, so its result is a function of its argument alone;
+    failures remember their task, which becomes the replay unit when a single case does not reproduce on its own
+    (a defect that needs the calls that precede it in the task)."""
+    tasks = list(tasks)
+    if isolate:
+        for x, r in pmap(_Isolated(fn), tasks, ctx.workers):
+            ctx.absorb(r, task=(fn.__module__, fn.__name__, x))
+    else:
+        for r in pmap(fn, tasks, ctx.workers):
+            ctx.absorb(r)
 
 
 def run_forked(fn, arg, timeout=600):
@@ -212,7 +237,12 @@ def main(argv, here, repo):
 
     if a.replay:
         data = json.load(open(a.replay))
-        fails = mod.exec_case(data["kind"], data["payload"])
+        if data["kind"] == "__task__":
+            tmod = importlib.import_module(data["payload"]["module"])
+            res = getattr(tmod, data["payload"]["fn"])(data["payload"]["arg"])
+            fails = [(f[2], f[3]) for f in res.get("fails", ())]
+        else:
+            fails = mod.exec_case(data["kind"], data["payload"])
         sigs = sorted({f[0] for f in fails})
         if a.json:
             print("REPLAY-RESULT " + jdump({"sigs": sigs}))
@@ -257,6 +287,21 @@ def main(argv, here, repo):
         # determinism: the scenario must fail identically twice, each in a fresh process
         r1 = exec_case_subprocess(here, prop_id, path, repo)
         r2 = exec_case_subprocess(here, prop_id, path, repo)
+        if (r1 != r2 or sig not in r1["sigs"]) and f.get("task"):
+            # the case alone does not fail: replay the whole task it belonged to (the calls before it matter)
+            mod_name, fn_name, arg = f["task"]
+            try:
+                blob = json.dumps({"property": prop_id, "kind": "__task__", "payload": {"module": mod_name, "fn": fn_name, "arg": arg},
+                                   "sig": sig, "detail": f["detail"], "note": "fails only after the cases that precede it in this task"})
+            except TypeError:
+                blob = None
+            if blob is not None:
+                os.remove(path)
+                path = os.path.join(rdir, short_hash([mod_name, fn_name, arg]) + ".task.json")
+                with open(path, "w") as fh:
+                    fh.write(blob)
+                r1 = exec_case_subprocess(here, prop_id, path, repo)
+                r2 = exec_case_subprocess(here, prop_id, path, repo)
         if r1 != r2 or sig not in r1["sigs"]:
             # never report what cannot be reproduced from a fresh process
             print(f"UNREPRODUCIBLE: replay of {path} diverged: recorded {sig}, replays {r1} / {r2}", file=sys.stderr)
